@@ -158,10 +158,37 @@ def execute(doc: dict) -> dict:
             dirty = f"scratch:{sub}"
             just_scribbled = True
             continue
+        if kind == "decode_bad":
+            # always exactly n_items valid ids (shrunk documents included):
+            # the kernels are compiled without bounds checks
+            raw = [int(v) for v in op["x"]][:n_items]
+            raw += [1] * (n_items - len(raw))
+            raw = [(1 + (abs(v) - 1) % len(items)) * (1 if v >= 0 else -1)
+                   if v != 0 else 1 for v in raw]
+            xb = np.array(raw, dtype=xdtype)
+            try:
+                enc.decode(xb, dests[cur])
+                outcome = "returned"
+            except Exception as exc:  # noqa: BLE001
+                outcome = type(exc).__name__
+            core.bump(res["faults"], "decode_wrong_multiset")
+            res["events"].append(["decode_bad", cur, outcome])
+            dirty = "after_bad_call"
+            just_scribbled = True
+            continue
         xl = [int(v) for v in op["x"]]
         x = np.array(xl, dtype=xdtype)
         y = dests[cur]
-        enc.decode(x, y)
+        try:
+            enc.decode(x, y)
+        except Exception as exc:  # noqa: BLE001
+            core.violation(
+                res, "decode-raised",
+                f"encoder {encoder_id}, W={W}, H={H}, items={items}: decode "
+                f"of the valid permutation {xl} raised "
+                f"{type(exc).__name__}: {exc}; dirty={dirty}",
+                encoder=encoder_id, dirty=dirty)
+            break
         res["ops"] += 1
         decodes += 1
         got = [[int(v) for v in row] for row in y]
